@@ -15,8 +15,11 @@ C19 - runs leave inputs untouched, scratch space empty, and do not interfere.
     return, inputs untouched, output only where requested, with and without
     stale files planted.
 (c) two concurrent mapping runs sharing scratch and output directories,
-    interleaved at the granularity of worker dispatch: every interleaving of
-    two runs' process-level steps under the controlled scheduler.
+    interleaved at the granularity of worker dispatch (one run atomically
+    inside each scheduling point of the other), and
+(d) two mapping runs in two threads under a cooperative filesystem scheduler
+    (mc/fsched.py): every interleaving with <= 1 (thorough 2) preemptions,
+    switch points before every filesystem-mutating call.
 """
 import hashlib
 import json
@@ -41,8 +44,10 @@ RULE = ("BFS over histories of depth <= D over {ok, ok with result_dir "
         "checked.  Other stages: one run clean and one after planting.  "
         "distinct_nontrivial = distinct histories of >= 2 operations")
 ASSUMPTIONS = [
-    "concurrent runs are interleaved at worker-dispatch granularity only "
-    "(DESIGN 8); finer filesystem interleavings are not explored",
+    "fs-interleaved runs execute their workers inline (same interpreter); "
+    "switch points are python-level filesystem mutations (mkdtemp, mkstemp, "
+    "open for writing, copy/move/rmtree, unlink/rmdir/mkdir/rename), not "
+    "HDF5-internal writes; preemption bound 1 (quick) / 2 (thorough)",
     "a stale complete output file from an earlier run may be overwritten "
     "(it is at a requested location)",
 ]
@@ -85,6 +90,11 @@ def cases(tier, seed):
                   'frompmask', 'qmarkers', 'transpose', 'validate'):
         yield {'kind': 'stage', 'stage': stage, 'seed': seed}
     yield {'kind': 'concurrent', 'seed': seed, 'tier': tier}
+    for shared in ('tmp_dir', 'result_dir'):
+        for same_input in (False, True):
+            yield {'kind': 'fs-interleave', 'shared': shared,
+                   'same_input': same_input, 'seed': seed,
+                   'bound': 1 if tier == 'quick' else 2}
 
 
 # ----------------------------------------------------------- observation
@@ -321,7 +331,120 @@ def apply_history(hist, scratch, seed, baseline):
     return w, violations
 
 
+def evaluate_fs_interleave(case, scratch):
+    """
+    Two mapping runs in two threads of this interpreter under the
+    cooperative filesystem scheduler (mc/fsched.py): every interleaving with
+    at most `bound` preemptions, switch points before every
+    filesystem-mutating call.
+    """
+    from mc import explore, fsched, common
+    seed = case['seed']
+    w = World(scratch, seed)
+    if case['same_input']:
+        bb = w.b
+    else:
+        spec_b = {'L': 2, 'shape': (((), ()), ((),)), 'scheme': 'B',
+                  'n_cells': 3, 'seed': seed + 1, 'marker_mode': 'full'}
+        bb = scenario.build(spec_b, w.base / 'inputs_b')
+    for enc in ('dense', 'csc'):
+        scenario.write_query(bb, 'raw', enc)
+    w.inputs = snapshot(w.in_dir)
+    inputs_b = snapshot(bb.dir)
+    out = {0: w.base / 'out_A', 1: w.base / 'out_B'}
+    for d in out.values():
+        d.mkdir()
+    counter = [0]
+
+    def make_run(idx, b):
+        def fn():
+            counter[0] += 1
+            run_dir = out[idx] / f'r{counter[0]}'
+
+            def edit(config):
+                if case['shared'] == 'tmp_dir':
+                    config['tmp_dir'] = str(w.scr)
+                    config['extended_result_dir'] = None
+                else:
+                    config['tmp_dir'] = None
+                    config['extended_result_dir'] = str(w.res)
+            return scenario.run_mapping(
+                b, {'chunk_size': 2, 'n_processors': 2, 'factor': 0.5,
+                    'iterations': 3, 'encoding': ['dense', 'csc'][idx]},
+                run_dir, config_edit=edit)
+        return fn
+
+    runs = [make_run(0, w.b), make_run(1, bb)]
+    # solo baselines (under the same scheduler, no preemption possible)
+    base = []
+    for i in (0, 1):
+        sch = fsched.FsScheduler([])
+        res, errs = sch.run([runs[i]])
+        common.close_leaked_h5()
+        if errs[0] or res[0] is None or not res[0].ok:
+            return {'violations': [{
+                'key': 'harness', 'msg': f'solo run {i} failed: {errs[0]} '
+                                         f'{res[0] and res[0].error}'}]}
+        base.append(result_digest(res[0]))
+    violations = []
+    keys = []
+    outcomes = set()
+
+    def run(prefix):
+        sch = fsched.FsScheduler(prefix)
+        res, errs = sch.run(runs)
+        common.close_leaked_h5()
+        return (res, errs, sch), sch.options
+
+    def on_exec(choices, obs):
+        res, errs, sch = obs
+        switches = [(i, sch.labels[i]) for i, c in enumerate(choices) if c]
+        what = (f'two runs sharing {case["shared"]} (same input: '
+                f'{case["same_input"]}), preempted at {switches}')
+        if sch.stuck:
+            violations.append({'key': 'concurrent-run-interferes',
+                               'msg': f'{what}: a run never finished'})
+        for i in (0, 1):
+            o = res[i]
+            if errs[i] or o is None or not o.ok:
+                violations.append({
+                    'key': 'concurrent-run-interferes',
+                    'msg': f'{what}: run {"AB"[i]} failed: '
+                           f'{errs[i] or (o and o.error)}\n'
+                           f'{(o.tb if o else "") or ""}'[-1200:]})
+            elif result_digest(o) != base[i]:
+                violations.append({
+                    'key': 'concurrent-run-interferes',
+                    'msg': f'{what}: result of run {"AB"[i]} differs from '
+                           'its solo result'})
+        for key, msg in w.check(what):
+            violations.append({'key': key, 'msg': msg})
+        if snapshot(bb.dir) != inputs_b:
+            violations.append({'key': 'input-modified',
+                               'msg': f'{what}: inputs of run B changed'})
+        keys.append(str(switches))
+        outcomes.add(str(len(sch.options)))
+
+    stats = explore.explore(run, case['bound'], on_exec,
+                            max_executions=20000)
+    return {'violations': violations[:30], 'keys': keys,
+            'outcomes': sorted(outcomes), 'evaluations': stats['executions'],
+            'states': stats['max_points'],
+            'transitions': stats['choice_points'],
+            'traces': stats['executions'],
+            'extra': {'fs_interleavings': stats['executions'],
+                      'fs_switch_points_max': stats['max_points'],
+                      'fs_capped': int(stats['capped'])},
+            'sample': {'kind': 'fs-interleaved concurrent runs',
+                       'shared': case['shared'],
+                       'preemption_bound': case['bound'],
+                       'interleavings': stats['executions'],
+                       'switch_points': stats['max_points']}}
+
+
 def evaluate(case, scratch):
+    if case['kind'] == 'fs-interleave':
+        return evaluate_fs_interleave(case, scratch)
     if case['kind'] == 'stage':
         return evaluate_stage(case, scratch)
     if case['kind'] == 'concurrent':
